@@ -1,5 +1,5 @@
 SPECIFICATION Spec
-CONSTANTS M = 1  MaxDepth = 4  Guarded = TRUE  GuardedProducts = TRUE  GuardedInf = TRUE
+CONSTANTS M = 1  MaxDepth = 12  Guarded = TRUE  GuardedProducts = TRUE  GuardedInf = TRUE
 INVARIANT NoPanic
 INVARIANT Enclosure
 CHECK_DEADLOCK FALSE
